@@ -93,7 +93,14 @@ ISO_EXT = {  # imported type -> (import line, usable as map key, orderable by co
     # an import path with an element that merely ENDS in "vendor": the generated import must name it in full
     "cat.Item": ('"sites/myvendor/cat"', False),
     "cat.Code": ('"sites/myvendor/cat"', True),
+    # user packages that bear the name of a standard package the plugins import themselves (math.Float64bits,
+    # bytes.Equal / bytes.Compare, strings.Compare): both must be imported, one of them under an alias
+    "math.Vec": ('"sites/mystd/math"', True),
+    "bytes.Buf": ('"sites/mystd/bytes"', False),
+    "strings.Str": ('"sites/mystd/strings"', False),
 }
+ISO_PINNED = {"math.Vec", "bytes.Buf", "strings.Str"}  # always part of the sample, over ISO_PINNED_SHAPES
+ISO_PINNED_SHAPES = {"[]E", "struct {\n\tF E\n}", "map[string]E"}
 ISO_SHAPES = ["map[E]int", "map[string]E", "map[E]E", "[]E", "[2]E", "struct {\n\tF E\n}", "struct {\n\tF *E\n}", "struct {\n\tF []E\n\tG int\n}",
               "struct {\n\tF map[E]bool\n}", "struct {\n\tF map[int]E\n}", "[]*E", "map[E][]string"]
 ISO_CALLS = {  # plugin -> wrapper source over the argument type X
@@ -124,8 +131,11 @@ def gen_iso(rng, n):
                         continue
                     combos.append((e, imp, sh, pl, ptr))
     rng.shuffle(combos)
+    if n:
+        pinned = [c for c in combos[n:] if c[0] in ISO_PINNED and c[2] in ISO_PINNED_SHAPES]
+        combos = combos[:n] + pinned
     files, meta = {}, {}
-    for i, (e, imp, sh, pl, ptr) in enumerate(combos[:n] if n else combos):
+    for i, (e, imp, sh, pl, ptr) in enumerate(combos):
         name = "iso%03d" % i
         # every third package reaches the imported type through a type ALIAS declared next to T (go/types hands the
         # generator a *types.Alias there, not a *types.Named): refused with a message or generated and type-correct
